@@ -26,8 +26,9 @@ from . import core
 
 
 class Model:
-    def __init__(self, module, cfg, desc, claims=None, timeout=3600, env=None):
+    def __init__(self, module, cfg, desc, claims=None, timeout=3600, env=None, expect=None):
         self.module, self.cfg, self.desc = module, cfg, desc
+        self.expect = expect      # "violated": a configuration that records a named deviation and MUST be refuted
         self.claims = claims      # name of the property clause this model check establishes at design level
         self.timeout = timeout
         self.env = env
@@ -109,6 +110,11 @@ def run_check(pid, tier, replay=None):
                     "states_generated": res.generated, "wall_s": round(res.wall, 1),
                     "result": "violated: " + ",".join(res.violated) if res.violated else "no error"}
             model_notes.append(note)
+            if getattr(m, "expect", None) == "violated":
+                if not res.violated:
+                    raise core.MachineryError(f"model {m.module}/{m.cfg} was expected to be refuted and is not")
+                note["result"] = "refuted as expected: " + ",".join(res.violated)
+                continue
             if res.violated:
                 # a design-level theorem of the specification fails: this is a statement about the
                 # specification/algorithm, reported as machinery-level unless the driver says otherwise
